@@ -1,13 +1,17 @@
 // ---- prelude/inner.rs: the wrapped service as a contract (DESIGN §4.2) — ASSUMED Tower contract.
 pub enum Poll<T> { Ready(T), Pending }
+pub struct Waker { pub p: u8 }
+impl Waker { #[verifier::external_body] pub fn wake_by_ref(&self) { unimplemented!() } }
 pub struct Context { pub p: u8 }
+impl Context { #[verifier::external_body] pub fn waker(&self) -> &Waker { unimplemented!() } }
 pub struct InnerFut<Req, Res, E> { pub p: core::marker::PhantomData<(Req, Res, E)> }
-pub struct Inner<Req, Res, E> { pub ready: Ghost<bool>, pub p: core::marker::PhantomData<(Req, Res, E)> }
+pub struct Inner<Req, Res, E> { pub ready: Ghost<bool>, pub polls: Ghost<nat>, pub p: core::marker::PhantomData<(Req, Res, E)> }
 impl<Req, Res, E> Inner<Req, Res, E> {
     #[verifier::external_body]
     pub fn poll_ready(&mut self, cx: &mut Context) -> (r: Poll<Result<(), E>>)
         ensures (r matches Poll::Ready(Ok(_))) ==> final(self).ready@,
                 !(r matches Poll::Ready(Ok(_))) ==> final(self).ready@ == old(self).ready@,
+                final(self).polls@ == old(self).polls@ + 1,
     { unimplemented!() }
     #[verifier::external_body]
     pub fn call(&mut self, req: Req, Tracked(tr): Tracked<&mut Trace<Req, Res, E>>) -> (f: InnerFut<Req, Res, E>)
@@ -16,7 +20,7 @@ impl<Req, Res, E> Inner<Req, Res, E> {
             call_gate(*old(tr)),   // #inner_call_gate @GATE_TAGS@
             old(tr).unguarded == 0,   // #no_unguarded_duty_when_inner_call_may_panic @LEDGER_TAGS@
         ensures
-            !final(self).ready@,
+            !final(self).ready@, final(self).polls == old(self).polls,
             *final(tr) == (Trace { ev: old(tr).ev.push(Ev::InnerCall(req)), calls: old(tr).calls + 1, last_req: Some(req), reqs: old(tr).reqs.push(req), ..*old(tr) }),
     { unimplemented!() }
     /// a clone has not been driven to readiness (strict services such as Buffer reserve capacity in poll_ready)
